@@ -15,6 +15,7 @@ mod cffi;
 mod env;
 mod c08;
 mod c12;
+mod codec;
 mod c19;
 
 fn main() {
@@ -37,6 +38,10 @@ fn main() {
         ["c08", "replay", path] => c08::replay(path),
         ["c08", "record", runs, path] => c08::record(runs.parse().unwrap(), path),
         ["c12", "replay", path] => c12::replay(path),
+        ["c01", "replay", path] => codec::replay_c01(path),
+        ["c01", "record", runs, path] => codec::record_c01(runs.parse().unwrap(), path),
+        ["c02", "record", runs, path] => codec::record_c02(runs.parse().unwrap(), path),
+        ["c02", "replay", path] => codec::replay_c02(path),
         _ => {
             eprintln!("usage: vh <prop> <replay|record> ...");
             std::process::exit(2);
